@@ -34,3 +34,6 @@ gen_topup.main([os.path.join(b, "src"), vlib.LEAN])
 import gen_mhupdate
 gen_mhupdate.main([os.path.join(b, "src"), vlib.LEAN])
 gen_mhupdate.main_tail([os.path.join(b, "src"), vlib.LEAN])
+
+import gen_flush
+gen_flush.main([os.path.join(b, "src"), vlib.LEAN])
